@@ -32,7 +32,12 @@ def run(ctx, model_ok):
                        "4 label shapes; each copy followed by mutation of both sides; every case has fresh random geometry/paths")
     ctx.cov["traces_validated_against_impl"] = ost["c18_copies"]
     ctx.cov["samples"] = [ost]
-    ctx.cov["not_shown"] = ["attribute equality, same field and absence of shared mutable state in the CPython heap: interpreter-level oracle (reachable-graph walk, np.shares_memory, mutate-and-diff)"]
+    ctx.cov["not_shown"] = ["attribute equality, same field and absence of shared mutable state in the CPython heap: interpreter-level oracle (reachable-graph walk, np.shares_memory, mutate-and-diff)",
+                            "the Forest model has no attributes at all: 'same class' is the only attribute-level fact proved (copy_subtree_iso: kind); geometry, excitation, path, pixels, "
+                            "style VALUES of the copy, keyword overrides (copy(position=...), style_label=...) acting on the copy only, and lazily un-initialised styles other than the label rule "
+                            "(copy_label_spec) are oracle only",
+                            "'any later change to either is invisible to the other' is proved only in the form 'no parent/children/view link crosses between old and new ids' "
+                            "(copy_shares_no_node) plus C11-preservation for later tree operations; later path operations / attribute writes are outside the model"]
 
 
 def replay(ctx, payload):
